@@ -102,6 +102,15 @@ def handleC20 : Handler := fun st toks =>
       | some c => some ("OK " ++ pairsOut c)
       | none => some "ERR missingTable"
     | none => some "ERR parse"
+  -- curve2 <table> n x0 y0 x1 y1 … : a leaf of two arguments (joint pdf on grid nodes)
+  | "curve2" :: name :: rest =>
+    match takeFloats rest with
+    | some (xs, _) =>
+      match curve (fun (p : Float × Float) => st.tables[name ++ " " ++ tokOfF p.1 ++ " " ++ tokOfF p.2]?)
+          (pairsOf xs) with
+      | some c => some ("OK " ++ floatsOut (c.map Prod.snd))
+      | none => some "ERR missingTable"
+    | none => some "ERR parse"
   | ["readbench", t] =>
     match readBenchmark (strOfTok t) with
     | none => some "ERR reject"
